@@ -7,7 +7,7 @@ from pbt.runner import Outcome
 ID = "C04"
 MIN_NONTRIVIAL = 0.3
 RULE = ("Hypothesis: histories = op lists (1-30 steps) over the full public alphabet (add_absolute_message, add_relative_message "
-        "with index, concatenate, merge, cutoff, normalise, overwrite_absolute/relative_messages, pad, set_channel, scale, "
+        "with index, concatenate, merge, cutoff, normalise, overwrite_absolute/relative_messages, pad, set_channel, scale (integer factors, and 1/2, 1/4 with no / own / foreign meta sequence), "
         "transpose, quantise, quantise_note_lengths, quantise_and_normalise, iteration of messages_abs()/messages_rel() with "
         "edits, early break and reads of the other view inside the loop, copy (continue on the copy), refresh, legal "
         "invalidate_abs/rel, reads of .abs/.rel, read-only getters incl. split/equals/==) applied to one Sequence that starts "
@@ -21,10 +21,11 @@ RULE = ("Hypothesis: histories = op lists (1-30 steps) over the full public alph
 ASSUMPTIONS = ["mutators are never interleaved with an open messages_*() generator (documented as illegal)",
                "edits through messages_abs() never change `time`; invalidate_* is only called when the other view is fresh",
                "an operation that raises identically on the object and on its clean replica ends the history as inconclusive"]
-TIERS = {"quick": dict(shards=8, examples=800), "thorough": dict(size=2, shards=16, examples=8000)}
+TIERS = {"quick": dict(shards=8, examples=800, alt_ppqn=[480], alt_shards=2),
+         "thorough": dict(size=2, shards=16, examples=8000, alt_ppqn=[480, 7, 1000], alt_shards=4)}
 
 ABS_OPS = {"add_abs", "cutoff", "merge", "quantise", "qnl", "qan", "it_abs", "read_abs"}
-REL_OPS = {"add_rel", "concatenate", "normalise", "pad", "set_channel", "scale", "transpose", "it_rel", "read_rel"}
+REL_OPS = {"add_rel", "concatenate", "normalise", "pad", "set_channel", "scale", "scale_down", "transpose", "it_rel", "read_rel"}
 PURE = {"read_abs", "read_rel", "refresh", "inval_abs", "inval_rel", "getters", "copy"}
 
 
@@ -142,6 +143,14 @@ def check(case):
             else:
                 out.inconclusive = f"op-raised:{name}:{type(e1).__name__}"
             break
+        if name == "scale_down":
+            # halving odd tick values legitimately yields fractional ticks (the statement's tick model is integral):
+            # such a history leaves the domain and ends here without a verdict
+            try:
+                _content(seq)
+            except O.Malformed:
+                out.inconclusive = "scale-down-fractional-ticks"
+                break
         executed += 1
         out.label(name)
         if name in ("read_abs", "it_abs") or (name in ABS_OPS and name != "read_abs"):
